@@ -19,7 +19,7 @@ func makeSeed() uint64 {
 	if VxRT == nil {
 		return makeSeed_orig()
 	}
-	v := VxRT.next("seed")
+	v := VxRT.next("makeseed")
 	if v == 0 {
 		return makeSeed_orig()
 	}
